@@ -370,6 +370,9 @@ class Reshape(ArrayExpr):
         in_ndim = len(in_shape)
         input_index = list(full_index[:preserved_dims])
         input_index += [slice(None)] * (in_ndim - preserved_dims)
+        if all(isinstance(idx, Integral) for idx in input_index):
+            # The sliced input would be 0-d; reshape_rechunk needs an axis to work with.
+            return None
 
         # Compute new output shape after slicing
         new_out_shape = []
